@@ -23,7 +23,8 @@ use poulpy_ckks::{
         CKKSPlaintextCstZnx, CKKSPlaintextVecRnx, CKKSPlaintextVecZnx,
     },
     leveled::api::{
-        CKKSAddOps, CKKSConjugateOps, CKKSDecrypt, CKKSEncrypt, CKKSMulAddOps, CKKSMulOps, CKKSMulSubOps, CKKSNegOps,
+        CKKSAddManyOps, CKKSAddOps, CKKSConjugateOps, CKKSDecrypt, CKKSDotProductOps, CKKSEncrypt, CKKSMulAddOps, CKKSMulManyOps,
+        CKKSMulOps, CKKSMulSubOps, CKKSNegOps,
         CKKSPow2Ops, CKKSRescaleOps, CKKSRotateOps, CKKSSubOps,
     },
 };
@@ -850,6 +851,106 @@ macro_rules! backend_impl {
                         e2s(r)?;
                         Ok(None)
                     }
+                    ("add_many" | "mul_many", _) if f.len() >= 2 => {
+                        let d = slot(f[1])?;
+                        let idx: Vec<usize> = f[2..].iter().map(|x| nat(x)).collect();
+                        let (pd, cs) = dst_srcs(pool, d, &idx)?;
+                        let mut nv: Slots = idx.first().and_then(|&a| vals[a].clone());
+                        for &a in idx.iter().skip(1) {
+                            nv = if name == "add_many" { zip2(&nv, &vals[a], |x, y| (x.0 + y.0, x.1 + y.1)) } else { zip2(&nv, &vals[a], cmul) };
+                        }
+                        let r = if name == "add_many" {
+                            ctx.module.ckks_add_many(pd, &cs, ctx.scratch.borrow())
+                        } else {
+                            ctx.module.ckks_mul_many(pd, &cs, &ctx.tsk, ctx.scratch.borrow())
+                        };
+                        vals[d] = if r.is_ok() { nv } else { None };
+                        e2s(r)?;
+                        Ok(Some(d))
+                    }
+                    ("dot_ct" | "dot_pt_znx" | "dot_pt_rnx" | "dot_cst_rnx", _) if f.len() >= 3 => {
+                        let d = slot(f[1])?;
+                        let n = nat(f[2]);
+                        if f.len() < 3 + n {
+                            return Err("bad-op".to_string());
+                        }
+                        let ia: Vec<usize> = f[3..3 + n].iter().map(|x| nat(x)).collect();
+                        let rest = &f[3 + n..];
+                        let sum = |terms: Vec<Slots>| -> Slots {
+                            let mut acc: Slots = terms.first().cloned().flatten();
+                            for t in terms.iter().skip(1) {
+                                acc = zip2(&acc, t, |x, y| (x.0 + y.0, x.1 + y.1));
+                            }
+                            acc
+                        };
+                        match name {
+                            "dot_ct" => {
+                                if rest.len() != n {
+                                    return Err("bad-op".to_string());
+                                }
+                                let ib: Vec<usize> = rest.iter().map(|x| nat(x)).collect();
+                                let mut all = ia.clone();
+                                all.extend(ib.iter());
+                                let nv = sum((0..n).map(|i| zip2(&vals[ia[i]], &vals[ib[i]], cmul)).collect());
+                                let (pd, cs) = dst_srcs(pool, d, &all)?;
+                                let r = ctx.module.ckks_dot_product_ct(pd, &cs[..n], &cs[n..], &ctx.tsk, ctx.scratch.borrow());
+                                vals[d] = if r.is_ok() { nv } else { None };
+                                e2s(r)?;
+                            }
+                            "dot_pt_znx" => {
+                                if rest.len() != 3 {
+                                    return Err("bad-op".to_string());
+                                }
+                                if ia.iter().any(|&a| a == d) {
+                                    return Err("bad-slot".to_string());
+                                }
+                                let pv: Vec<(Vec<f64>, Vec<f64>)> = (0..n).map(|i| gen_slots(5000 + step * 16 + i as u64, m, 0.2)).collect();
+                                let mut zs = Vec::new();
+                                for v in pv.iter() {
+                                    zs.push(pt_znx(ctx, meta(rest[0], rest[1]), nat(rest[2]), v).map_err(|e| err_string(&e))?);
+                                }
+                                let zr: Vec<&CKKSPlaintextVecZnx<Vec<u8>>> = zs.iter().collect();
+                                let nv = sum((0..n).map(|i| zip2(&vals[ia[i]], &Some(pv[i].clone()), cmul)).collect());
+                                let (pd, cs) = dst_srcs(pool, d, &ia)?;
+                                let r = ctx.module.ckks_dot_product_pt_vec_znx(pd, &cs, &zr, ctx.scratch.borrow());
+                                vals[d] = if r.is_ok() { nv } else { None };
+                                e2s(r)?;
+                            }
+                            "dot_pt_rnx" => {
+                                if rest.len() != 2 {
+                                    return Err("bad-op".to_string());
+                                }
+                                let pv: Vec<(Vec<f64>, Vec<f64>)> = (0..n).map(|i| gen_slots(5000 + step * 16 + i as u64, m, 0.2)).collect();
+                                let rs: Vec<CKKSPlaintextVecRnx<f64>> = pv.iter().map(|v| pt_rnx(ctx, v)).collect();
+                                let rr: Vec<&CKKSPlaintextVecRnx<f64>> = rs.iter().collect();
+                                let nv = sum((0..n).map(|i| zip2(&vals[ia[i]], &Some(pv[i].clone()), cmul)).collect());
+                                let (pd, cs) = dst_srcs(pool, d, &ia)?;
+                                let r = ctx.module.ckks_dot_product_pt_vec_rnx(pd, &cs, &rr, meta(rest[0], rest[1]), ctx.scratch.borrow());
+                                vals[d] = if r.is_ok() { nv } else { None };
+                                e2s(r)?;
+                            }
+                            _ => {
+                                if rest.len() != 4 {
+                                    return Err("bad-op".to_string());
+                                }
+                                let cv: Vec<(Option<f64>, Option<f64>)> =
+                                    (0..n).map(|i| cst_vals(step * 16 + i as u64, rest[2] == "1", rest[3] == "1")).collect();
+                                let cs_: Vec<CKKSPlaintextCstRnx<f64>> = cv.iter().map(|c| CKKSPlaintextCstRnx::<f64>::new(c.0, c.1)).collect();
+                                let cr: Vec<&CKKSPlaintextCstRnx<f64>> = cs_.iter().collect();
+                                let nv = sum((0..n)
+                                    .map(|i| {
+                                        let cc = (cv[i].0.unwrap_or(0.0), cv[i].1.unwrap_or(0.0));
+                                        map1(&vals[ia[i]], |x| cmul(x, cc))
+                                    })
+                                    .collect());
+                                let (pd, cs) = dst_srcs(pool, d, &ia)?;
+                                let r = ctx.module.ckks_dot_product_pt_const_rnx(pd, &cs, &cr, meta(rest[0], rest[1]), ctx.scratch.borrow());
+                                vals[d] = if r.is_ok() { nv } else { None };
+                                e2s(r)?;
+                            }
+                        }
+                        Ok(Some(d))
+                    }
                     _ => Err("bad-op".to_string()),
                 }
             }
@@ -868,6 +969,13 @@ macro_rules! backend_impl {
                 }
                 let p = pool.as_mut_ptr();
                 unsafe { Ok((&mut *p.add(d), &*p.add(a))) }
+            }
+            fn dst_srcs<'a>(pool: &'a mut [Ct], d: usize, srcs: &[usize]) -> Result<(&'a mut Ct, Vec<&'a Ct>), String> {
+                if d >= pool.len() || srcs.iter().any(|&a| a == d || a >= pool.len()) {
+                    return Err("bad-slot".to_string());
+                }
+                let p = pool.as_mut_ptr();
+                unsafe { Ok((&mut *p.add(d), srcs.iter().map(|&a| &*p.add(a)).collect())) }
             }
             fn dst_src2<'a>(pool: &'a mut [Ct], d: usize, a: usize, b: usize) -> Result<(&'a mut Ct, &'a Ct, &'a Ct), String> {
                 if d == a || d == b {
@@ -904,6 +1012,12 @@ macro_rules! backend_impl {
                     "mul_pow2_assign" => vp[d] - g(2),
                     "div_pow2" => at(vp, g(2)),
                     "rescale" => at(vp, g(3)),
+                    "add_many" | "mul_many" => (2..f.len()).map(|i| at(vp, g(i))).min().unwrap_or(0),
+                    "dot_ct" => (3..f.len()).map(|i| at(vp, g(i))).min().unwrap_or(0),
+                    "dot_pt_znx" | "dot_pt_rnx" | "dot_cst_rnx" => {
+                        let n = g(2) as usize;
+                        (3..3 + n).map(|i| at(vp, g(i))).min().unwrap_or(0).min(g(3 + n))
+                    }
                     _ => vp[d],
                 };
                 vp[d] = v;
